@@ -289,6 +289,9 @@ func splitVolume(b r3.Box, dir int) r3.Box {
 
 // summarize updates node masses and centers of mass.
 func (b *bucket) summarize() (center r3.Vec, mass float64) {
+	if b.particle != nil {
+		return b.center, b.mass
+	}
 	for _, d := range &b.nodes {
 		if d == nil {
 			continue
